@@ -50,13 +50,21 @@ int eng_q(FILE *in, FILE *out)
         if (n == 2 && !strcmp(tok[0], "sm")) {
             h->conn->sm_state->sm_support = h->conn->sm_state->sm_enabled = atoi(tok[1]) ? 1 : 0;
             fprintf(out, "= ok");
-        } else if (n == 2 && (!strcmp(tok[0], "su") || !strcmp(tok[0], "sl") || !strcmp(tok[0], "ss"))) {
+        } else if (n == 2 && (!strcmp(tok[0], "su") || !strcmp(tok[0], "sl") || !strcmp(tok[0], "ss") ||
+                              !strcmp(tok[0], "sf"))) {
             hbuf b;
-            if (hparse(tok[1], &b) < 0 || !b.p) {
+            if (hparse(tok[1], &b) < 0 || !b.p || (tok[0][1] == 'f' && memchr(b.p, 0, b.n))) {
                 fprintf(out, "= bad-op\n");
                 continue;
             }
-            if (tok[0][1] == 'u')
+            if (tok[0][1] == 'f') {
+                /* the formatted entry point (stack buffer up to 1023 bytes, heap beyond) */
+                char *z = malloc(b.n + 1);
+                memcpy(z, b.p, b.n);
+                z[b.n] = 0;
+                xmpp_send_raw_string(h->conn, "%s", z);
+                free(z);
+            } else if (tok[0][1] == 'u')
                 xmpp_send_raw(h->conn, (char *)b.p, b.n);
             else
                 send_raw(h->conn, (char *)b.p, b.n, tok[0][1] == 'l' ? XMPP_QUEUE_STROPHE : XMPP_QUEUE_SM_STROPHE, NULL);
